@@ -221,6 +221,39 @@ type schema struct {
 	PK   []*column
 	Idx  []index // secondary indexes of t_idx
 	uniq int64   // counter for unique columns
+
+	// named statement parameters (@p1, @p2 …): every Exec / Query of the case gets the whole map
+	Params map[string]interface{}
+}
+
+// operand renders a comparison constant: a literal, or (now and then) a named parameter.
+func (s *schema) operand(r *rand.Rand, v val) string {
+	if v.Null || r.IntN(4) != 0 {
+		return v.lit()
+	}
+	var pv interface{}
+	switch v.K {
+	case kInt:
+		pv = v.I
+	case kVarchar:
+		pv = v.S
+	case kBool:
+		pv = v.B
+	case kBlob:
+		pv = append([]byte{}, v.X...)
+	case kTs:
+		pv = v.T
+	case kFloat:
+		pv = v.F
+	default:
+		return v.lit() // UUID parameters travel as text: keep the typed literal
+	}
+	if s.Params == nil {
+		s.Params = map[string]interface{}{}
+	}
+	name := fmt.Sprintf("p%d", len(s.Params)+1)
+	s.Params[name] = pv
+	return "@" + name
 }
 
 func (s *schema) col(name string) *column {
@@ -470,8 +503,19 @@ func cmpCols(s *schema) []*column {
 func genLeaf(r *rand.Rand, s *schema, allowSub bool) pred {
 	cs := cmpCols(s)
 	c := cs[r.IntN(len(cs))]
+	if r.IntN(3) == 0 {
+		// the columns a scan can be bounded on: the primary key and the leading columns of the indexes
+		var lead []*column
+		for _, x := range cs {
+			if a := s.indexedAs(x); a == "pk" || a == "indexed" {
+				lead = append(lead, x)
+			}
+		}
+		c = lead[r.IntN(len(lead))]
+	}
 	on := "-on-" + s.indexedAs(c) + "-" + kindName[c.K]
 	col := "{q}" + c.Name
+	k := func() string { return s.operand(r, s.near(r, c)) }
 	w := r.IntN(100)
 	switch {
 	case w < 20: // equality / inequality
@@ -480,18 +524,28 @@ func genLeaf(r *rand.Rand, s *schema, allowSub bool) pred {
 			op = "<>"
 		}
 		if r.IntN(5) == 0 {
-			return pred{fmt.Sprintf("%s %s %s", s.near(r, c).lit(), op, col), "eq" + on, c}
+			return pred{fmt.Sprintf("%s %s %s", k(), op, col), "eq-rev" + on, c}
 		}
-		return pred{fmt.Sprintf("%s %s %s", col, op, s.near(r, c).lit()), "eq" + on, c}
-	case w < 45 && c.K != kBool: // ranges
+		return pred{fmt.Sprintf("%s %s %s", col, op, k()), "eq" + on, c}
+	case w < 48 && c.K != kBool: // ranges, the column on either side of the operator
 		ops := []string{"<", "<=", ">", ">="}
-		switch r.IntN(4) {
+		lo, hi := ops[2+r.IntN(2)], ops[r.IntN(2)]   // col > a , col < b
+		rlo, rhi := ops[r.IntN(2)], ops[2+r.IntN(2)] // a < col , b > col
+		switch r.IntN(8) {
 		case 0:
-			return pred{fmt.Sprintf("%s BETWEEN %s AND %s", col, s.near(r, c).lit(), s.near(r, c).lit()), "range" + on, c}
+			return pred{fmt.Sprintf("%s BETWEEN %s AND %s", col, k(), k()), "range" + on, c}
 		case 1:
-			return pred{fmt.Sprintf("%s %s %s AND %s %s %s", col, ops[2+r.IntN(2)], s.near(r, c).lit(), col, ops[r.IntN(2)], s.near(r, c).lit()), "range" + on, c}
+			return pred{fmt.Sprintf("%s %s %s AND %s %s %s", col, lo, k(), col, hi, k()), "range" + on, c}
+		case 2: // a <= col AND col < b
+			return pred{fmt.Sprintf("%s %s %s AND %s %s %s", k(), rlo, col, col, hi, k()), "range-rev" + on, c}
+		case 3: // a <= col AND b > col
+			return pred{fmt.Sprintf("%s %s %s AND %s %s %s", k(), rlo, col, k(), rhi, col), "range-rev" + on, c}
+		case 4: // col >= a AND b > col
+			return pred{fmt.Sprintf("%s %s %s AND %s %s %s", col, lo, k(), k(), rhi, col), "range-rev" + on, c}
+		case 5, 6: // constant / parameter on the left
+			return pred{fmt.Sprintf("%s %s %s", k(), ops[r.IntN(4)], col), "range-rev" + on, c}
 		default:
-			return pred{fmt.Sprintf("%s %s %s", col, ops[r.IntN(4)], s.near(r, c).lit()), "range" + on, c}
+			return pred{fmt.Sprintf("%s %s %s", col, ops[r.IntN(4)], k()), "range" + on, c}
 		}
 	case w < 57: // IN list
 		n := 1 + r.IntN(4)
@@ -1058,7 +1112,18 @@ func genQuery(r *rand.Rand, s *schema, id int, syncTxs []uint64) *query {
 				}
 			}
 			b := same[r.IntN(len(same))]
-			on = fmt.Sprintf("a.%s = b.%s", a.Name, b.Name)
+			jop := "="
+			if a.K != kBool && r.IntN(3) == 0 {
+				jop = []string{"<", "<=", ">", ">="}[r.IntN(4)]
+				if r.IntN(2) == 0 { // against the inner table's leading primary-key column when the types agree
+					for _, pc := range s.PK[:1] {
+						if pc.K == a.K {
+							b = pc
+						}
+					}
+				}
+			}
+			on = fmt.Sprintf("a.%s %s b.%s", a.Name, jop, b.Name)
 			q.Join = fmt.Sprintf(" %s JOIN {T} b{RIDX} ON %s", jt, on)
 			for i, c := range s.PK {
 				_ = i
@@ -1072,14 +1137,30 @@ func genQuery(r *rand.Rand, s *schema, id int, syncTxs []uint64) *query {
 				q.JoinIdx = append(q.JoinIdx, ix.Cols)
 			}
 			q.Mods = "self-join-" + strings.ToLower(jt) + "-" + kindName[a.K]
+			if jop != "=" {
+				q.Mods = "nonequi-" + q.Mods
+			}
 		} else {
-			switch r.IntN(4) {
+			iop := []string{"<", "<=", ">", ">="}[r.IntN(4)]
+			switch r.IntN(8) {
 			case 0:
 				on = "a.i0 = b.k"
 			case 1:
 				on = "a.s0 = b.sv"
 			case 2:
 				on = "a.i0 = b.iv AND a.s0 <> b.sv"
+			case 3: // non-equi, outer column on the left, inner primary key on the right
+				on = "a.i0 - (" + fmt.Sprint(s.col("i0").Pool[0].I) + ") " + iop + " b.k"
+				q.Mods = "nonequi-"
+			case 4: // the same with a plain outer column against the inner indexed column
+				on = "a.i0 " + iop + " b.iv"
+				q.Mods = "nonequi-"
+			case 5:
+				on = "a.s0 " + iop + " b.sv"
+				q.Mods = "nonequi-"
+			case 6:
+				on = "a.i0 = b.iv AND a.s0 " + iop + " b.sv"
+				q.Mods = "nonequi-"
 			default:
 				on = "a.i0 = b.iv"
 			}
@@ -1089,7 +1170,7 @@ func genQuery(r *rand.Rand, s *schema, id int, syncTxs []uint64) *query {
 			}
 			q.Targets = append(q.Targets, target{Expr: "b.k", K: kInt}, target{Expr: "a.i0", K: kInt}, target{Expr: "a.s0", K: kVarchar}, target{Expr: "b.iv", K: kInt}, target{Expr: "b.sv", K: kVarchar})
 			q.JoinIdx = [][]string{{"k"}, {"iv"}, {"sv"}, {"iv", "sv"}}
-			q.Mods = "join-" + strings.ToLower(jt)
+			q.Mods += "join-" + strings.ToLower(jt)
 		}
 		maybeWhere(50)
 		// a total order: a's key then b's key
